@@ -21,4 +21,12 @@ def Mat.oldAdjugate : {n : Nat} → Mat n n → Mat n n
 /-- a 1×1 static matrix -/
 def Mat.single (x : Int) : Mat 1 1 := ⟨fromArray #v[x]⟩
 
+/-! ## seeded regression C14-1: `multiply_scalar` taking the factor by `const &` and capturing it by reference
+
+`void multiply_scalar(Storage &_value, typename Storage::value_type const &_mult)` with `[&_value, &_mult]`:
+the factor is read from memory in every step of the loop, so a factor that is a component of the object
+(`v *= v.x()`) changes half-way.  `Props/C14.lean` refutes "`*=` is the free `*`" for this variant. -/
+def multiplyScalarByRef {len n : Nat} (value : Ref len n) (mult : Scalar len) (mem : Mem len) : Mem len :=
+  loop n (fun i mem => value.write mem i (value.read mem i * mult.read mem)) mem
+
 end Fcppt.C14
